@@ -580,9 +580,17 @@ func genBad(t *rapid.T) badCase {
 	} else {
 		c.Mode = "body"
 		c.Delta = rapid.SampledFrom([]int{-3, -2, -1, 1, 2, 3}).Draw(t, "delta")
+		if rapid.IntRange(0, 3).Draw(t, "wrap") == 0 {
+			// a surplus that is invisible to a comparison made in 8 bits
+			c.Delta = rapid.SampledFrom(wrapDeltas).Draw(t, "wrapdelta")
+		}
 	}
 	return c
 }
+
+// wrapDeltas are body length changes around the multiples of 256: a frame that carries 256 bytes more than its byte count says
+// disagrees with it exactly as one that carries 1 more.
+var wrapDeltas = []int{253, 254, 255, 256, 257, 258, 510, 511, 512, 513, 514, 768, 1024}
 
 var chkBad = harness.Define("bytecount-mismatch", genBad, runBad).Repeated(2)
 
@@ -657,6 +665,18 @@ func TestByteCountSweep(t *testing.T) {
 					r.ServerID = harness.Bytes(s, k)
 					r.Additional = harness.Bytes(s+1, k%7)
 				}
+				for _, d := range wrapDeltas {
+					idx++
+					n++
+					if !harness.Mine(idx) {
+						continue
+					}
+					for _, fix := range []bool{true, false} {
+						if !chkBad.EvalFast(t, badCase{Framing: fr, Resp: r, Mode: "body", Delta: d, FixMBAP: fix}) {
+							return
+						}
+					}
+				}
 				for cnt := 0; cnt < 256; cnt++ {
 					idx++
 					n++
@@ -672,5 +692,5 @@ func TestByteCountSweep(t *testing.T) {
 			}
 		}
 	}
-	harness.Exhaustive("bytecount-mismatch", fmt.Sprintf("every substituted byte count value 0..255 on %d base frames per function (fc1-4,17,23) x {tcp,rtu}", bases), n)
+	harness.Exhaustive("bytecount-mismatch", fmt.Sprintf("every substituted byte count value 0..255, and every surplus of 253..258, 510..514, 768, 1024 body bytes, on %d base frames per function (fc1-4,17,23) x {tcp,rtu}", bases), n)
 }
